@@ -243,6 +243,7 @@ def r26_cid_sanitiser(ctx):
         ctx.check(ok, R, r, g, 'getCid returns only IDs in 1..nCand', how, 'getCid can return `%s` without the range test' % unparse(v) if v else 'None')
     _sets_only_grow(ctx, R, funcs)
     _tables_complete(ctx, R, funcs)
+    _guard_key_is_store_key(ctx, R, funcs)
     return n
 
 
@@ -272,6 +273,37 @@ def _sets_only_grow(ctx, R, funcs):
                             ok = all(cfg.dominates(rn, u) for u in users) and rn not in cfg.reach([rn])
                         ctx.check(ok, R, n, f, what, 'empty-set reset that dominates every option and withdrawal, executed once',
                                   '`%s` in %s re-binds the set: candidates recorded earlier in the header are forgotten' % (stmt_text(n), f.qualname))
+
+
+def _guard_key_is_store_key(ctx, R, funcs):
+    """a table filled under a membership test is tested and filled with the SAME key: `if k in T: raise ...; T[k'] = v` needs k' == k
+    (otherwise two entries that the test tells apart collapse to one, or a repeated entry is not noticed); and a lookup
+    `if k in T: return T[k']` reads the entry it tested for"""
+    from .common import ctext
+    n = 0
+    for f in funcs.values():
+        tests = []     # (table text, key text, node)
+        for x in f.own_nodes():
+            if isinstance(x, ast.Compare) and len(x.ops) == 1 and isinstance(x.ops[0], (ast.In, ast.NotIn)) \
+                    and isinstance(x.comparators[0], ast.Attribute) and unparse(x.comparators[0].value) == 'self':
+                tests.append((unparse(x.comparators[0]), ctext(ctx, f, x.left), x))
+        if not tests:
+            continue
+        for x in f.own_nodes():
+            if isinstance(x, ast.Subscript) and isinstance(x.value, ast.Attribute) and unparse(x.value.value) == 'self':
+                tbl = unparse(x.value)
+                mine = [t for t in tests if t[0] == tbl]
+                if not mine:
+                    continue
+                n += 1
+                key = ctext(ctx, f, x.slice)
+                ok = any(t[1] == key for t in mine)
+                kind = 'stored' if isinstance(x.ctx, ast.Store) else 'looked up'
+                ctx.check(ok, R, x, f, 'a table guarded by a membership test is tested and %s with the same key' % ('filled' if kind == 'stored' else 'read'),
+                          '%s[%s] and `%s in %s`' % (tbl, unparse(x.slice), unparse(mine[0][2].left), tbl),
+                          '%s is %s under the key `%s` but the membership test in this function uses `%s`: entries the test distinguishes '
+                          'collapse into one (or a repeated entry goes unnoticed)' % (tbl, kind, unparse(x.slice), unparse(mine[0][2].left)))
+    ctx.floor(R, 'guarded table accesses', n, 2)
 
 
 def _tables_complete(ctx, R, funcs):
@@ -701,6 +733,29 @@ def r29_ballot_count_pairing(ctx):
                           'store to .%s inside %s' % (n.attr, fq.split('.')[-2] + '.' + fq.split('.')[-1]),
                           'store to .%s in %s: the ballot total / a line multiplier is changed outside BallotLine.__init__, where kept and '
                           'dropped lines are told apart' % (n.attr, fq), nontrivial=False)
+    # every counting ballot is built with the multiplier of the line it stands for: Election.Ballot(...) constructions (also
+    # `type(self)(...)` / `self.__class__(...)` inside Ballot) pass `<line>.multiplier` (the default multiplier=1 is for tests)
+    nb_ = 0
+    for fq, g in ctx.repo.funcs.items():
+        if not g.module.name.startswith('droop'):
+            continue
+        in_ballot = g.owner_class is not None and g.owner_class.qualname == 'droop.election.Election.Ballot'
+        for c in g.own_nodes():
+            if not isinstance(c, ast.Call):
+                continue
+            fn = unparse(c.func)
+            is_ctor = fn.split('.')[-1] == 'Ballot' and fn in ('self.Ballot', 'Ballot', 'E.Ballot', 'Election.Ballot', 'self.E.Ballot') \
+                or (in_ballot and fn in ('type(self)', 'self.__class__'))
+            if not is_ctor:
+                continue
+            nb_ += 1
+            m_ = c.args[1] if len(c.args) > 1 else next((k.value for k in c.keywords if k.arg == 'multiplier'), None)
+            okm_ = isinstance(m_, ast.Attribute) and m_.attr == 'multiplier'
+            ctx.check(okm_, R, c, g, 'a counting ballot is built with the multiplier of the ballot line it stands for',
+                      'multiplier argument `%s`' % (unparse(m_) if m_ is not None else None),
+                      '`%s` builds a ballot %s: it counts as one ballot however many the line stands for'
+                      % (unparse(c), 'without a multiplier' if m_ is None else 'with multiplier `%s`' % unparse(m_)))
+    ctx.floor(R, 'Ballot constructions', nb_, 2)
     # no other writer of the two lists
     for fq, g in ctx.repo.funcs.items():
         for n in g.own_nodes():
